@@ -108,21 +108,25 @@ CHECKS["C07"] = dict(
     design="§6 C07")
 
 CHECKS["C12"] = dict(
-    technique="Coq-verified forward-mode AD: dual numbers over intervals proved (Coquelicot + Interval) to enclose value and derivative of every Num operation; Paramcoq free theorems lift it to whole models; correspondence autograd vs proved enclosures + autograd vs finite differences for every density/parameter on the implementation",
-    text="Theorem C12_dual_numbers_enclose_derivatives (NumFD_R): for every x0 the dual-number instance is related to "
-         "the pointwise real-function instance by 'value enclosed, derivative enclosed or NaN (no claim at possible "
-         "zero divisors, non-positive ln/sqrt arguments, ties of max)'; by parametricity C12_loglik_gradient, "
-         "C12_height_jacobian_gradient, C12_site_rates_gradient: the dual run of those model terms encloses the "
-         "derivative of their real-valued reading. That PyTorch's autograd returns this derivative is decided by "
-         "correspondence (autograd inside the proved enclosure, relative 1e-7) for the tree likelihood w.r.t. branch "
-         "lengths, the node-height log-Jacobian w.r.t. ratios/root height and Weibull rates w.r.t. shape; for all other "
-         "densities (coalescents, GMRF, CTMC scale, torch priors, joint) the property is evaluated directly on the "
-         "implementation: autograd vs Richardson finite differences for every parameter coordinate, missing or zero "
+    technique="Coq-verified forward-mode AD: dual numbers over intervals proved (Coquelicot + Interval) to enclose value and derivative of every Num operation; Paramcoq free theorems lift it to whole models (likelihood, height Jacobian, site rates, four coalescents, birth-death skyline, GMRF); correspondence autograd vs proved enclosures + autograd vs finite differences for every density/parameter on the implementation",
+    text="Theorem C12_dual_numbers_enclose_derivatives (NumFD_R): for every x0 the dual-number instance is related to the "
+         "pointwise real-function instance by 'value enclosed, derivative enclosed or NaN (no claim at possible zero "
+         "divisors, non-positive ln/sqrt arguments, ties of max)'; by parametricity C12_loglik_gradient, "
+         "C12_height_jacobian_gradient, C12_site_rates_gradient, C12_constant_coalescent_gradient, "
+         "C12_exponential_coalescent_gradient, C12_skyride_gradient, C12_skygrid_gradient (population sizes AND event "
+         "times as functions of the variable; event order decided on exact keys = the property's 'away from ties'), "
+         "C12_bdsk_gradient (any number of epochs, w.r.t. R/delta/s), C12_birth_death_gradient, C12_gmrf_gradient (plain, "
+         "weighted, time-aware): the dual run of those model terms encloses the derivative of their real-valued reading. "
+         "That PyTorch's autograd returns this derivative is decided by correspondence (autograd inside the proved "
+         "enclosure, relative 1e-7) for each of these families on objects built through the public API; for the remaining "
+         "densities (piecewise-linear / -exponential coalescent, CTMC scale, torch priors, joint) and for EVERY density "
+         "again the property is evaluated directly on the implementation: autograd vs Richardson finite differences for "
+         "every parameter coordinate (half of the likelihoods with the rescaled recursion in use), missing or zero "
          "gradients of influential parameters reported.",
-    note="Trusted: Coq kernel; models as in C01/C05/C06; dP/dt oracle (autograd of p_t validated by central differences); "
-         "PyTorch autograd is the thing under test, not trusted; finite differences are a numerical reference with an "
-         "adaptive tolerance (implementation side only). Coalescent/BDSK/GMRF derivative enclosures are not yet "
-         "instantiated (their models exist in other property files): implementation-side check only — partial.",
+    note="Trusted: Coq kernel; models as in C01/C05/C06/C08/C09/C20; dP/dt oracle (autograd of p_t validated by central "
+         "differences); PyTorch autograd is the thing under test, not trusted; finite differences are a numerical "
+         "reference with an adaptive tolerance (implementation side only); max at ties: no claim. Axioms: standard-library "
+         "reals, classic, Uint63 primitives (interval runs).",
     design="§6 C12")
 
 CHECKS["C11"] = dict(
